@@ -566,5 +566,33 @@ def r8_claimed_before_open(repo, report):
 
     raises = any(isinstance(par, ast.If) and any(isinstance(r_, ast.Raise) for r_ in par.body) for t in tests for par in [getattr(t, "_parent", None)])
     ok = len(tests) == 1 and len(adds) == 1 and resolved(tests[0].left) and resolved(adds[0].args[0]) and raises
+    # when does a claim do nothing?  only for 'no path', '-', and things that EXIST and are not regular files (FIFO, /dev/null)
+    from ..absint import Obj as _Obj, explore as _explore
+
+    def _hk(ex, node, env):
+        cn = chain(node.func)
+        if cn in ("os.path.exists", "os.path.isfile", "os.path.isdir", "os.path.islink"):
+            return _Obj(f"{cn.split('.')[-1].upper()}")
+        if cn in ("os.path.realpath", "realpath"):
+            return _Obj("RESOLVED", nonnull=True)
+        return None
+
+    try:
+        crow = _explore(repo, strip_docstring(cm.body), {"self": _Obj("self", nonnull=True), pv: _Obj("PATH")}, call_hook=_hk, inline=False)
+    except Unrecognised as u:
+        crow = None
+        report.unrecognised("C04.R8", "OutputFiles: which paths a claim ignores", u.what, repo.loc(cm))
+    if crow is not None:
+        wrong = []
+        for r in crow:
+            v = r.valuation
+            did = "raise" if r.exit[0] == "raise" else ("add" if any(e[0] == "call" and e[1].endswith(".add") for e in r.effects) else "ignore")
+            nopath = v.get("isnone:PATH") is True or v.get("eq:PATH:'-'") is True
+            special = v.get("truthy:EXISTS") is True and v.get("truthy:ISFILE") is False
+            if did == "ignore" and not (nopath or special):
+                wrong.append({"path_condition": r.describe()["valuation"], "claim": "ignored"})
+        report.ob("C04.R8", "OutputFiles: a claim ignores only 'no path', '-' and existing non-regular files", not wrong, facts={"paths": len(crow), "problems": wrong[:2]}, loc=repo.loc(cm),
+                  expected="return without registering only if path is None / '-' or (os.path.exists(path) and not os.path.isfile(path))",
+                  why=(f"under {wrong[0]['path_condition']} the path is not registered: a file that does not exist yet (every fresh output) is never claimed, so the second writer on it is not refused" if wrong else ""))
     report.ob("C04.R8", "OutputFiles: a claim refuses a path it has seen, in resolved form", ok, facts={"test": src(expand(cm, tests[0].left)) if tests else None, "stored": src(expand(cm, adds[0].args[0])) if adds else None, "raises": raises}, loc=repo.loc(cm),
               expected="resolved = os.path.realpath(path); if resolved in self._claimed: raise ...; self._claimed.add(resolved)")
